@@ -89,6 +89,10 @@ func ruleC15Codec(c *Ctx) {
 		} else {
 			c.Bad(rule, key, c.P.InstrPos(r.at), fmt.Sprintf("encoder writes (%s %s %s) but decoder reads (%s %s %s)", w.what, w.typ, w.ord, r.what, r.typ, r.ord), nil)
 		}
+		// the magic/version word is validated before anything else of the frame is interpreted
+		if i == 1 {
+			c.Guard(rule, rfn, []ssa.Instruction{r.at}, "read item 1", nil, atom("magic/version matches", "+var(rpc.Message).MagicVersion -6915 ==0"))
+		}
 		// each step after success of the previous
 		if i > 0 {
 			c.Guard(rule, wfn, []ssa.Instruction{w.at}, fmt.Sprintf("write item %d", i), nil, Need{Desc: "previous item written", Edge: successEdgesOfCall(wfn, wseq[i-1].at)})
@@ -472,6 +476,17 @@ func ruleC15Client(c *Ctx) {
 				c.Bad(rule, FnName(cl)+" | every operation type gets a deadline", c.P.Pos(cl.Pos()), "some operation type has no deadline channel", nil)
 			}
 		}
+	}
+	// the reader goroutine never ends silently: every exit passes c.SetError (any read error, EOF included)
+	if fn := c.Anchor(rule, fCli+"read"); fn != nil {
+		var rets []ssa.Instruction
+		for _, r := range Returns(fn) {
+			rets = append(rets, r)
+		}
+		R := NewRenderer(fn)
+		c.Guard(rule, fn, rets, "reader exit", nil, Need{Desc: "c.SetError(err)", Instr: func(in ssa.Instruction) bool {
+			return strings.HasPrefix(callRender(R, in), fCli+"SetError($0,"+fWire+"Read($0.wire)#1")
+		}})
 	}
 	// read/write loops report transport errors
 	for _, x := range []struct{ fn, call string }{{fCli + "read", fWire + "Read"}, {fCli + "write", fWire + "Write"}} {
